@@ -165,6 +165,7 @@ def generate(st):
         op_ = {'op': 'call', 'inputs': todays, 'expiry': expiry, 'data': data, 'loss': loss, 'also_join': g.random() < 0.3}
         if cfg['faulty'] and f.random() < 0.08:
             op_['raise_at'] = f.choice([1, 1, 2, 3])
+            op_['exc'] = f.choice(['sim', 'sim', 'stop'])      # StopIteration is an exception too (next() on an exhausted iterator)
         ops.append(op_)
         # the generator cannot know the join result without the model; approximate prev_keys by all table keys
         prev_keys = cand
@@ -252,7 +253,7 @@ def _make_f(params, ledger, dict_output=False, arm=None):
     src = ("def f(%s):\n"
            "    args = {%s}\n"
            "    ledger.append(dict(args))\n"
-           "    if arm and arm[0] == len(ledger): raise SimFError('injected at evaluation %%d' %% len(ledger))\n"
+           "    if arm and arm[0] == len(ledger): raise (StopIteration() if len(arm) > 1 and arm[1] == 'stop' else SimFError('injected at evaluation %%d' %% len(ledger)))\n"
            "    return 'v#%%d:%%s' %% (len(ledger), '|'.join('%%s=%%r' %% (k, args[k]) for k in sorted(args)))\n") % (sig, body)
     ns = {'ledger': ledger, 'arm': arm, 'SimFError': SimFError}
     exec(src, ns)
@@ -449,15 +450,32 @@ def execute(trace, ctx=None):
             if op.get('raise_at') and has_table and mrows:
                 # fault: f raises at its k-th evaluation within this call.  The statement says nothing about a failing f, so
                 # whatever the call does is accepted; what is checked is that the long-lived object still behaves on later days
-                arm[:] = [before + int(op['raise_at'])]
+                arm[:] = [before + int(op['raise_at']), op.get('exc', 'sim')]
+                returned = False
                 try:
-                    p(**call)
+                    out_f = p(**call)
+                    returned = True
                 except Exception:
                     pass
                 fired = len(ledger) >= arm[0]
+                failing_args = ledger[arm[0] - 1] if fired else None
                 arm[:] = []
                 if fired:
                     res.fault('f_raises_mid_call')
+                    if returned and is_dictable_like(out_f) and mrows:
+                        # the failure was swallowed.  Nothing says it must not be - but then every OTHER row must still hold
+                        # f of its own inputs (or its kept value), not some other row's value
+                        res.probe('failure-swallowed')
+                        byk = {tuple(r[c] for c in on): r for r in out_f if all(c in r for c in on)}
+                        for kd, vals in mrows:
+                            kt = tuple(kd[c] for c in on)
+                            args = {q['name']: vals.get(q['name'], q.get('default')) for q in params}
+                            if args == failing_args or kt not in byk or col not in byk[kt]:
+                                continue
+                            gotv = byk[kt][col]
+                            if isinstance(gotv, str) and gotv.startswith('v#') and gotv.split(':', 1)[1] != _fmt_args(args) and gotv != supplied.get(kt):
+                                raise Violation('row-value', 'key %s: after f failed on another row the result holds %r, which is f of other inputs (expected f(%s))'
+                                                % (kt, gotv, _fmt_args(args)), k)
                     continue
                 # fewer rows were evaluated than raise_at: the call completed normally but its result was discarded; the
                 # evaluations are gone from the ledger's point of view
